@@ -12,10 +12,10 @@ import (
 // finalizer) preserves: unsynchronised epochs exist <=> put wake-up channel is
 // closed; blocks await release <=> release wake-up channel is closed; no path
 // closes a closed channel (that would be a Go panic, reported by the engine).
-func Verif_C07_L1_WakeupInvariants() { Verif_C02_P1_InvariantPerMethod() }
+func Verif_C07_L1_WakeupInvariants() { verifScenarioPBLMethod() }
 
 // Verif_C07_L1b_FinalizerWakeup: same for upload finalizers (see C02 P2).
-func Verif_C07_L1b_FinalizerWakeup() { Verif_C02_P2_EpochFencing() }
+func Verif_C07_L1b_FinalizerWakeup() { verifScenarioPBLFinalizer() }
 
 // Verif_C07_L2_ProcessBlockPut: one ProcessBlockPut from a state with
 // unsynchronised epochs: it performs the whole commit sequence, retrying failed
